@@ -1,5 +1,7 @@
 /* C14 (function part): carquet_crc32 / carquet_crc32_update on exact-size buffers at every
- * alignment; C-side oracle: zlib's crc32() called directly. */
+ * alignment; C-side oracle: zlib's crc32() called directly.
+ * crc_dmg: a copy of the data damaged inside one window of <= 32 message bits (bit 8*k+j = bit j
+ * of byte k) must get a different checksum from the real code (C14_burst_detected). */
 #include "common.h"
 #include <zlib.h>
 
@@ -32,6 +34,52 @@ static void do_upd(hctx* h, const uint8_t* d, size_t na, size_t nb) {
     free(a); free(b);
 }
 
+/* d2 = d with the bits of `pat` (bit t of pat -> message bit s+t, t < w <= 32) flipped */
+static void do_dmg(hctx* h, const uint8_t* d, size_t n, size_t s, unsigned w, uint32_t pat) {
+    uint8_t* a = h_alloc(n); memcpy(a, d, n);
+    uint8_t* b = h_alloc(n); memcpy(b, d, n);
+    int any = 0;
+    for (unsigned t = 0; t < w && s + t < 8 * n; t++)
+        if ((pat >> t) & 1u) { b[(s + t) / 8] ^= (uint8_t)(1u << ((s + t) % 8)); any = 1; }
+    if (!any) { free(a); free(b); return; }
+    fprintf(h->out, "crc_dmg data="); h_hex(h->out, a, n);
+    fprintf(h->out, " d2="); h_hex(h->out, b, n); h_call(h);
+    uint32_t r = carquet_crc32(a, n);
+    uint32_t r2 = carquet_crc32(b, n);
+    uint32_t z2 = (uint32_t)crc32(0L, b, (uInt)n);
+    fprintf(h->out, " | r=%u r2=%u p_detect=%d p_zlib=%d\n", r, r2, r != r2, r2 == z2);
+    h->n_lines++;
+    free(a); free(b);
+}
+
+static void gen_dmg(hctx* h) {
+    uint8_t buf[320];
+    /* exhaustive small scope: 19-byte message (two 8-byte rounds + 3 tail bytes): every single
+     * bit, every position of a solid 32-bit burst, every position of the two-ends-only burst */
+    h_fill(h, buf, 19, 0);
+    for (size_t s = 0; s < 8 * 19; s++) {
+        do_dmg(h, buf, 19, s, 1, 1u);
+        do_dmg(h, buf, 19, s, 32, 0xFFFFFFFFu);
+        if (s + 32 <= 8 * 19) do_dmg(h, buf, 19, s, 32, 0x80000001u);
+    }
+    /* every single byte value change at one tail and one main-loop position (thorough) */
+    if (h->thorough)
+        for (unsigned v = 1; v < 256; v++) { do_dmg(h, buf, 19, 8 * 5, 8, v); do_dmg(h, buf, 19, 8 * 17, 8, v); }
+    /* random: length 1..maxlen, any start, any width 1..32, random pattern with both ends set */
+    size_t maxlen = h->thorough ? 300 : 64;
+    long m = h->thorough ? 6000 : 500;
+    for (long i = 0; i < m; i++) {
+        size_t n = 1 + (size_t)h_below(h, maxlen);
+        h_fill(h, buf, n, (int)h_below(h, 5));
+        size_t s = (size_t)h_below(h, 8 * n);
+        unsigned w = 1 + (unsigned)h_below(h, 32);
+        uint32_t pat = (uint32_t)h_next(h);
+        if (w < 32) pat &= (1u << w) - 1u;
+        pat |= 1u | (1u << (w - 1));
+        do_dmg(h, buf, n, s, w, pat);
+    }
+}
+
 static void gen_crc(hctx* h) {
     size_t maxlen = h->thorough ? 1025 : 257;
     uint8_t* buf = h_alloc(maxlen + 8);
@@ -57,6 +105,7 @@ static void gen_crc(hctx* h) {
         do_upd(h, buf, k, n - k);
     }
     free(buf);
+    gen_dmg(h);
 }
 
 static int replay_crc(hctx* h, const h_line* l) {
@@ -68,6 +117,16 @@ static int replay_crc(hctx* h, const h_line* l) {
         size_t na, nb; uint8_t* a = h_unhex(h_in(l, "a"), &na); uint8_t* b = h_unhex(h_in(l, "b"), &nb);
         uint8_t* d = h_alloc(na + nb); memcpy(d, a, na); memcpy(d + na, b, nb);
         do_upd(h, d, na, nb); free(a); free(b); free(d); return 1;
+    }
+    if (!strcmp(l->op, "crc_dmg")) {
+        size_t n, n2; uint8_t* a = h_unhex(h_in(l, "data"), &n); uint8_t* b = h_unhex(h_in(l, "d2"), &n2);
+        if (n != n2) { free(a); free(b); return 0; }
+        /* re-emit the same pair: recover first differing bit and the pattern (window <= 32 by construction) */
+        size_t s = 0; while (s < 8 * n && !(((a[s / 8] ^ b[s / 8]) >> (s % 8)) & 1)) s++;
+        uint32_t pat = 0;
+        for (unsigned t = 0; t < 32 && s + t < 8 * n; t++)
+            if (((a[(s + t) / 8] ^ b[(s + t) / 8]) >> ((s + t) % 8)) & 1) pat |= 1u << t;
+        do_dmg(h, a, n, s, 32, pat); free(a); free(b); return 1;
     }
     return 0;
 }
